@@ -5,7 +5,7 @@ HARNESSES = {
 
 def _runs(tier):
     if tier == "quick":
-        return [{"harness": "mip", "args": ["--depth", "3", "--seed-depth", "3"], "budget": 230}]
+        return [{"harness": "mip", "args": ["--depth", "3", "--seed-depth", "3"], "budget": 190}]
     return [{"harness": "mip", "args": ["--depth", "4", "--depth-dim1", "5", "--seed-depth", "3"], "budget": 2400}]
 
 CHECKS = {
